@@ -143,6 +143,16 @@ def aux_of(parser, text):
     return {'neglen': neglen, 'body': body, 'low': low, 'half': half, 'matches': ms, 'rm': rm}
 
 
+def variant_of_tree():
+    """Which variant of _power_number_parse the working tree follows (findings/numfrac/pow-x10.diff), probed on the real
+    method with the fixed input `1.5x10^3`: 1 = `X10^` is rewritten to `E` (1500), 0 = the code as first found (1.51 ** 3)."""
+    st = setup()
+    if 'fx' not in st:
+        v = under15(lambda: st['parsers']['en-us']['NUMBER']._power_number_parse(mk_er('1.5x10^3', 'DoublePow')).value)
+        st['fx'] = 1 if (isinstance(v, Decimal) and v == Decimal(1500)) else 0
+    return st['fx']
+
+
 def mk_er(text, data, typ='builtin.num'):
     er = setup()['ER']()
     er.start, er.length, er.text, er.type, er.data = 0, len(text), text, typ, data
@@ -502,7 +512,7 @@ def unit_float(ctx):
             continue
         ch = chr(c)
         u = ch.upper()
-        if u != ch and any(x in 'E^-+.,' or x.isdigit() for x in u):
+        if u != ch and any(x in 'EX^-+.,' or x.isdigit() for x in u):
             bad.append('U+%04X' % c)
         elif u == ch and False:
             pass
@@ -619,7 +629,7 @@ def unit_branches(ctx, cases):
                 elif family == 'text':
                     lines.append('%s\t%s\t15\t%s' % (op, cps(cu), cps(a['half'])))
                 elif family == 'pow':
-                    lines.append('%s\t%s\t15\t%s' % (op, cps(cu), cps(text)))
+                    lines.append('%s\t%s\t%d\t15\t%s' % (op, cps(cu), variant_of_tree(), cps(text)))
                 else:
                     lines.append('%s\t%s\t15\t%s\t%s' % (op, cps(cu), cps(a['low']), a['rm']))
                 v = under15(lambda: getattr(parser, meth)(mk_er(text, tag)).value)
@@ -643,8 +653,8 @@ PARSER_FOR_TAG = [('IntegerNum', 'builtin.num.integer', ['NUMBER', 'INTEGER', 'C
 
 def parse_line(cu, kind, parser, typ, data, text):
     a = aux_of(parser, text)
-    return 'nf.parse\t%s\t15\t%s\t%s\t%s\t%s\t%s\t%s\t%s\t%s\t%s\t%s' % (
-        cps(cu), kind, lst(parser.supported_types), cps(typ), 'none' if data is None else cps(data), cps(text),
+    return 'nf.parse\t%s\t%d\t15\t%s\t%s\t%s\t%s\t%s\t%s\t%s\t%s\t%s\t%s' % (
+        cps(cu), variant_of_tree(), kind, lst(parser.supported_types), cps(typ), 'none' if data is None else cps(data), cps(text),
         'none' if a['neglen'] is None else str(a['neglen']), cps(a['low']), cps(a['half']), lst(a['matches']), a['rm'])
 
 
@@ -728,6 +738,7 @@ def extractor_results(ctx, phrases):
 
 def unit(ctx):
     setup()
+    ctx.extra['numfrac_power_variant'] = 'X10^ -> E (repaired)' if variant_of_tree() else 'as first found (x10^ under the caret rule)'
     cases = {'digit': {}, 'text': {}, 'pow': {}, 'frac': {}}
     for cu in UNIT_CULTURES + EXTRA_CULTURES:
         cases['digit'][cu] = gen_digit_cases(ctx, cu)
